@@ -31,6 +31,7 @@ import LinVerif.Lemmas.C09Compact
 import LinVerif.Lemmas.C09Hist
 import LinVerif.Lemmas.C09Blocks
 import LinVerif.Lemmas.C09Buf
+import LinVerif.Lemmas.C09FlushFault
 import LinVerif.Model.IdAssignView
 import LinVerif.Generated.C10
 
@@ -849,5 +850,135 @@ theorem stable_over_reused_buffer (c : Cfg) {nd : Node} (inv : NodeInv nd) (buf 
 /-- non-vacuity: the block is overwritten between two `GenMetricID` calls through the same two views -/
 example : (brun {} {} [.load [97, 110, 115, 48, 109, 48], .metric ⟨0, 4⟩ ⟨4, 2⟩, .load [97, 110, 115, 48, 109, 49],
       .metric ⟨0, 4⟩ ⟨4, 2⟩]).map (fun st => (st.nd.getMetric 97 0 0, st.nd.getMetric 97 0 1)) = some (some 0, some 1) := by decide
+
+
+/-! ## Round 9: faults inside an index flush (which of the four steps fails) × crash / reopen × new series
+
+Series ids have no sequence file: after a restart `createSeriesID` continues after the largest id in the
+metric→series postings. That is safe only while "the postings of a round are on disk before the dictionary
+entries that carry their ids" — which has two halves: the ORDER of the steps of `metricIndexDatabase.Flush`
+(`index_flush_order_tie`) and the EARLY RETURN when a step fails. Here the second half: the flush is a step
+list with a fault placement (`Node.flushFaultGo`), "a failed step aborts the round" is its modelled control
+flow (`Cfg.indexFlushAborts`, read from the regenerated `indexFlushStepGuards`), and the theorems quantify over
+all histories with any number of faulted flushes, any step failing, crashes after any prefix and reopen. -/
+
+/-- every step of both Flush methods is `if err := step(); err != nil { return err }` (no step's error is
+collected, ignored or deferred); the steps come in the order `Shard.flushStep` numbers them; the error
+branches of the two posting flushes do nothing but return (their `immutable` table stays for the next round),
+and both clear `immutable` only after `flusher.Close()` -/
+theorem flush_abort_tie :
+    currentIndexFlushSteps = [0, 1, 2, 3] ∧ currentCfg.indexFlushAborts = true ∧
+    (C09.indexFlushStepGuards.filter (fun g => isFlushStep g.1)).map (·.1) = C09.hookIndexFlushSteps ∧
+    C09.metaFlushStepGuards.map (·.1) = C09.hookMetaFlushSteps ∧ C09.metaFlushStepGuards.all (·.2) = true ∧
+    C09.invertedFlushErrBranchCalls.all (· = []) = true ∧ C09.forwardFlushErrBranchCalls.all (· = []) = true ∧
+    callsAfter C09.invertedFlushCalls "flusher.Close" = ["lock.Lock", "lock.Unlock"] ∧
+    callsAfter C09.forwardFlushCalls "flusher.Close" = ["lock.Lock", "lock.Unlock"] := by decide
+
+/-- **a failed step aborts the round**: whichever step fails, a faulted flush with lindb's control flow is a
+prefix of the flush — so a crash during or after it is one of the crash points `recover_ids` /
+`fresh_after_recover` already quantify over; it reports the error iff it stopped early -/
+theorem faulted_flush_is_prefix (sh : Shard) (k : Nat) :
+    ∃ j, j ≤ 4 ∧ (Node.flushFaultGo true k [0, 1, 2, 3] sh).1 = (List.range j).foldl Shard.flushStep sh ∧
+      ((Node.flushFaultGo true k [0, 1, 2, 3] sh).2 = true → j < 4) :=
+  flushFault_abort_is_prefix sh k
+
+/-- **the cover invariant is reachable**: after every history — get-or-create calls of every kind, PrepareFlush /
+Flush of both databases, failed metadata flushes, index flushes in which ANY step fails (any number of them,
+retried or not), crashes after any prefix of either flush, reopen — every entry of every shard's series
+dictionary has its metric→series posting at least as close to the disk as the entry itself -/
+theorem cover_reachable (c : Cfg) (hc : c.seriesLimitFirst = true) (hp : c.prepareSwapsEmpty = true)
+    (ha : c.indexFlushAborts = true) (lim : Limits) (n : Nat) (ops : List FOp) :
+    NodeCover (frun c [0, 1, 2, 3] { lim := lim, nShards := n } ops) :=
+  nodeCover_frun hc hp ha ops (nodeCover_init lim n)
+
+/-- **the recovered series sequence lies above every id of every committed dictionary, for all fault
+placements**: in the state after any such history (a), and in the state a crash at that moment leaves (b),
+the id the next new series of a metric gets is larger than every id the series dictionary answers for that
+metric. (b) is the statement about disk content: `recover` keeps exactly the committed families. -/
+theorem series_sequence_above_dictionary (c : Cfg) (hc : c.seriesLimitFirst = true) (hp : c.prepareSwapsEmpty = true)
+    (ha : c.indexFlushAborts = true) (lim : Limits) (n : Nat) (ops : List FOp) (sh m ts i : Nat) :
+    ((((frun c [0, 1, 2, 3] { lim := lim, nShards := n } ops).shards sh).series.lookup m ts = some i →
+      i < ((frun c [0, 1, 2, 3] { lim := lim, nShards := n } ops).shards sh).createSeriesID m)) ∧
+    ((((frun c [0, 1, 2, 3] { lim := lim, nShards := n } ops).shards sh).recover.series.lookup m ts = some i →
+      i < ((frun c [0, 1, 2, 3] { lim := lim, nShards := n } ops).shards sh).recover.createSeriesID m)) :=
+  ⟨fun h => (cover_reachable c hc hp ha lim n ops sh).new_id_unused h,
+   fun h => (coverInv_recover (cover_reachable c hc hp ha lim n ops sh)).new_id_unused h⟩
+
+/-- **injective across faulted flushes, crash and reopen**: a series that is new to the dictionary never gets
+an id the dictionary — live or recovered — answers for another tag set of the metric -/
+theorem new_series_id_unused (c : Cfg) (hc : c.seriesLimitFirst = true) (hp : c.prepareSwapsEmpty = true)
+    (ha : c.indexFlushAborts = true) (lim : Limits) (n : Nat) (ops : List FOp) (sh m ts ts' i : Nat) (tags : List (Nat × Nat))
+    (hold : ((frun c [0, 1, 2, 3] { lim := lim, nShards := n } ops).shards sh).series.lookup m ts = some i)
+    (hnew : ((frun c [0, 1, 2, 3] { lim := lim, nShards := n } ops).shards sh).series.lookup m ts' = none) :
+    ((frun c [0, 1, 2, 3] { lim := lim, nShards := n } ops).genSeries c sh m ts' tags).2 ≠ .id i := by
+  have hlt := (cover_reachable c hc hp ha lim n ops sh).new_id_unused hold
+  generalize frun c [0, 1, 2, 3] { lim := lim, nShards := n } ops = nd at *
+  unfold Node.genSeries
+  simp only [hnew]
+  by_cases over : nd.lim.maxSeries > 0 ∧ nd.lim.maxSeries < (nd.shards sh).createSeriesID m
+  · rw [if_pos ⟨hc, over⟩]; intro h; cases h
+  · rw [if_neg (fun h => over h.2), if_neg over]
+    intro h
+    have : (nd.shards sh).createSeriesID m = i := by injection h
+    omega
+
+namespace Neg
+
+/-- a Flush that carries on after a failed step (e.g. `errors.Join(step1(), …, step4())`): series `a` (tags hash
+1) of metric 0 is created, PrepareFlush, the postings step fails, the dictionary step commits `a ↦ 0` all the
+same; the process dies. The recovered dictionary answers 0 for `a`, the recovered postings are empty, and the
+NEW series `b` gets id 0 as well. Fault on the forward / inverted / dictionary step: harmless. -/
+theorem flush_join_reuses_series_id :
+    let c : Cfg := { seriesLimitFirst := true, prepareSwapsEmpty := true, indexFlushAborts := false }
+    let nd := frun c [0, 1, 2, 3] {} [.op (.series 0 0 1 []), .op (.indexPrepare 0), .indexFlushFault 0 0, .op .reopen]
+    (nd.shards 0).series.lookup 0 1 = some 0 ∧ (nd.genSeries c 0 0 2 []).2 = .id 0 := by decide
+
+/-- the same history with lindb's control flow: nothing of the round is committed, `a` is simply lost by the
+crash and created again -/
+theorem flush_abort_same_history :
+    let c : Cfg := { seriesLimitFirst := true, prepareSwapsEmpty := true, indexFlushAborts := true }
+    let nd := frun c [0, 1, 2, 3] {} [.op (.series 0 0 1 []), .op (.indexPrepare 0), .indexFlushFault 0 0, .op .reopen]
+    (nd.shards 0).series.lookup 0 1 = none ∧ (nd.genSeries c 0 0 2 []).2 = .id 0 ∧
+    ((nd.genSeries c 0 0 2 []).1.genSeries c 0 0 1 []).2 = .id 1 := by decide
+
+/-- without the crash the carried-on flush is not observable: the retained postings go out with the retry
+round (the witness needs fault AND crash) -/
+theorem flush_join_retry_heals :
+    let c : Cfg := { seriesLimitFirst := true, prepareSwapsEmpty := true, indexFlushAborts := false }
+    let nd := frun c [0, 1, 2, 3] {} [.op (.series 0 0 1 []), .op (.indexPrepare 0), .indexFlushFault 0 0,
+      .op (.indexPrepare 0), .op (.indexFlush 0), .op .reopen]
+    (nd.shards 0).series.lookup 0 1 = some 0 ∧ (nd.genSeries c 0 0 2 []).2 = .id 1 := by decide
+
+end Neg
+
+/-- what holds for a Flush that aborts on a failed step / that carries on -/
+def FlushFaultVerdict : Bool → Prop
+  | true => ∀ (c : Cfg), c.seriesLimitFirst = true → c.prepareSwapsEmpty = true → c.indexFlushAborts = true →
+      ∀ (lim : Limits) (n : Nat) (ops : List FOp) (sh m ts ts' i : Nat) (tags : List (Nat × Nat)),
+      ((frun c [0, 1, 2, 3] { lim := lim, nShards := n } ops).shards sh).series.lookup m ts = some i →
+      ((frun c [0, 1, 2, 3] { lim := lim, nShards := n } ops).shards sh).series.lookup m ts' = none →
+      ((frun c [0, 1, 2, 3] { lim := lim, nShards := n } ops).genSeries c sh m ts' tags).2 ≠ .id i
+  | false =>
+      let c : Cfg := { seriesLimitFirst := true, prepareSwapsEmpty := true, indexFlushAborts := false }
+      let nd := frun c [0, 1, 2, 3] {} [.op (.series 0 0 1 []), .op (.indexPrepare 0), .indexFlushFault 0 0, .op .reopen]
+      (nd.shards 0).series.lookup 0 1 = some 0 ∧ (nd.genSeries c 0 0 2 []).2 = .id 0
+
+/-- **flush_fault_verdict**: decided for the control flow /repo's `metricIndexDatabase.Flush` has now; the
+hypotheses of the positive arm are what /repo has now, too -/
+theorem flush_fault_verdict : FlushFaultVerdict currentCfg.indexFlushAborts ∧
+    currentCfg.seriesLimitFirst = true ∧ currentCfg.prepareSwapsEmpty = true := by
+  refine ⟨?_, by decide, by decide⟩
+  cases h : currentCfg.indexFlushAborts with
+  | true => exact fun c hc hp ha lim n ops sh m ts ts' i tags => new_series_id_unused c hc hp ha lim n ops sh m ts ts' i tags
+  | false => exact Neg.flush_join_reuses_series_id
+
+/-- non-vacuity: a history with two rounds, a fault on the forward step of the second, the retry, a crash —
+the hypotheses hold for a state in which dictionary, frozen and committed postings are all non-empty -/
+example :
+    let c : Cfg := { seriesLimitFirst := true, prepareSwapsEmpty := true }
+    let nd := frun c [0, 1, 2, 3] {} [.op (.series 0 0 1 [(1, 1)]), .op (.indexPrepare 0), .op (.indexFlush 0),
+      .op (.series 0 0 2 [(1, 2)]), .op (.indexPrepare 0), .indexFlushFault 0 1, .op (.series 0 0 3 [])]
+    (nd.shards 0).series.lookup 0 2 = some 1 ∧ (nd.shards 0).series.needFlush = true ∧
+    (nd.shards 0).minv.disk.length = 2 ∧ (nd.shards 0).createSeriesID 0 = 3 := by decide
 
 end LinVerif.Props.C09
